@@ -7,6 +7,7 @@ import (
 	"os"
 	"os/exec"
 	"path/filepath"
+	"regexp"
 	"runtime"
 	"runtime/debug"
 	"runtime/pprof"
@@ -193,7 +194,12 @@ func parentRun(propID, tier, bindir string) int {
 				errf, _ := os.Create(filepath.Join(out, fmt.Sprintf("w-%s-%d.stderr", variant, wi)))
 				cmd.Stderr = errf
 				cmd.Stdout = errf
-				cmd.Env = append(os.Environ(),
+				if p.RlimitAS != 0 && variant != "race" {
+					cmd.Env = append(os.Environ(), fmt.Sprintf("VERIF_RLIMIT_AS=%d", p.RlimitAS))
+				} else {
+					cmd.Env = os.Environ()
+				}
+				cmd.Env = append(cmd.Env,
 					"GORACE=halt_on_error=0 log_path="+filepath.Join(out, fmt.Sprintf("race-%d", wi)),
 					"GOTRACEBACK=all")
 				if err := cmd.Start(); err != nil {
@@ -468,6 +474,10 @@ func fatalSig(first, stderr string) string {
 		s = strings.TrimSpace(s[i+1:])
 	}
 	s = strings.Join(strings.Fields(s), "-")
+	s = regexp.MustCompile(`[0-9]+`).ReplaceAllString(s, "#")
+	if i := strings.Index(s, "-("); i > 0 {
+		s = s[:i]
+	}
 	if len(s) > 60 {
 		s = s[:60]
 	}
